@@ -63,6 +63,9 @@ impl Family for C18 {
       // racing the emitter): one of the two terminals wins, and the future must resolve with it;
       // -1 = absent, otherwise the number of scheduling points it lets pass first
       ("watchdog_wait", Json::Int(if rng.below(4) == 0 { rng.below(12) as i64 } else { -1 })),
+      // the thread that later emits also builds the future (to_vec subscribes at construction) and
+      // hands it to the polling task; it starts to emit after this many scheduling points; -1 = absent
+      ("built_by_emitter_wait", Json::Int(if rng.below(5) == 0 { rng.below(12) as i64 } else { -1 })),
     ])
   }
   fn knobs(&self, rng: &mut Rng, _w: &Json, _tier: Tier) -> Json {
@@ -87,8 +90,10 @@ impl Family for C18 {
     let new_waker_after = if w.get("new_waker_after").is_some() { w.i("new_waker_after") } else { -1 };
     let second_handle = w.get("second_handle").is_some() && w.b("second_handle");
     let watchdog = if w.get("watchdog_wait").is_some() { w.i("watchdog_wait").clamp(-1, 40) } else { -1 };
+    let by_emitter = if w.get("built_by_emitter_wait").is_some() { w.i("built_by_emitter_wait").clamp(-1, 40) } else { -1 };
+    let watchdog = if by_emitter >= 0 { -1 } else { watchdog };
     // (the watchdog variant always has its emitter on a thread of its own)
-    let threaded = threaded || watchdog >= 0;
+    let threaded = threaded || watchdog >= 0 || by_emitter >= 0;
     let second: Arc<Mutex<Option<Option<Result<Vec<i64>, i64>>>>> = Arc::new(Mutex::new(None));
     let second2 = second.clone();
     let src_log = Arc::new(Mutex::new(SrcLog::default()));
@@ -97,8 +102,10 @@ impl Family for C18 {
     let flag_b = Arc::new(Flag { m: SimMutex::new(false), cv: Condvar::new(), wakes: Mutex::new(0) });
     let (sl, pl, fl, sc) = (src_log.clone(), polls.clone(), flag.clone(), script.clone());
     let flb = flag_b.clone();
+    let (src_log_b, script_b) = (src_log.clone(), script.clone());
     let res = rt::run(cfg, move || {
       let handles = Arc::new(Mutex::new(Vec::new()));
+      let leaked: Arc<Mutex<Option<usize>>> = Arc::new(Mutex::new(None));
       let o = if watchdog >= 0 {
         let handles = handles.clone();
         another_rxrust::prelude::Observable::create(move |s: another_rxrust::prelude::Observer<'static, Val>| {
@@ -125,7 +132,50 @@ impl Family for C18 {
       } else {
         cold_source(vec![sc], sl, None, check_sub)
       };
-      let first = o.to_vec();
+      let first = if by_emitter >= 0 {
+        // the emitter builds the future over a source that only stores its observer, hands the
+        // future over, waits a little and then plays the script on its own thread
+        let slot: Arc<Mutex<Option<another_rxrust::operators::to_vec::ToVec<'static, Val>>>> = Arc::new(Mutex::new(None));
+        let ready = Arc::new(Flag { m: SimMutex::new(false), cv: Condvar::new(), wakes: Mutex::new(0) });
+        let (slot2, ready2, sl3, sc3) = (slot.clone(), ready.clone(), src_log_b.clone(), script_b.clone());
+        let leaked2 = leaked.clone();
+        let h = rt::spawn_harness("to_vec-builder-emitter", move || {
+          let cell: Arc<Mutex<Option<another_rxrust::prelude::Observer<'static, Val>>>> = Arc::new(Mutex::new(None));
+          let c2 = cell.clone();
+          let src = another_rxrust::prelude::Observable::create(move |s: another_rxrust::prelude::Observer<'static, Val>| {
+            *c2.lock().unwrap() = Some(s);
+          });
+          // (to_vec ties the future's lifetime to the borrow of its source: the harness leaks this one)
+          let src: &'static another_rxrust::prelude::Observable<'static, Val> = Box::leak(Box::new(src));
+          *leaked2.lock().unwrap() = Some(src as *const _ as usize);
+          let fut = src.to_vec();
+          *slot2.lock().unwrap() = Some(fut);
+          *ready2.m.lock().unwrap() = true;
+          ready2.cv.notify_one();
+          for _ in 0..by_emitter {
+            rt::probe("c18-builder-emitter-wait");
+          }
+          let s = cell.lock().unwrap().clone();
+          if let Some(s) = s {
+            for st in &sc3 {
+              emit(&s, 0, st, &sl3, &None);
+            }
+          }
+        });
+        handles.lock().unwrap().push(h);
+        let mut g = ready.m.lock().unwrap();
+        while !*g {
+          g = ready.cv.wait(g).unwrap();
+        }
+        drop(g);
+        let f = slot.lock().unwrap().take();
+        match f {
+          Some(f) => f,
+          None => return,
+        }
+      } else {
+        o.to_vec()
+      };
       let mut other = if second_handle { Some(Box::pin(first.clone())) } else { None };
       let mut fut = Box::pin(first);
       let mut fl = fl;
@@ -178,6 +228,13 @@ impl Family for C18 {
       let hs: Vec<_> = std::mem::take(&mut *handles.lock().unwrap());
       for h in hs {
         let _ = h.join();
+      }
+      // give the leaked source back once every future that borrows it is gone
+      drop(fut);
+      drop(other);
+      let p = leaked.lock().unwrap().take();
+      if let Some(p) = p {
+        unsafe { drop(Box::from_raw(p as *mut another_rxrust::prelude::Observable<'static, Val>)) };
       }
     });
     // ---- oracle
